@@ -147,6 +147,9 @@ pub struct Cfg {
     /// shift of the run's base instant (seconds): all instants handed to quinn move by this much
     #[serde(default)]
     pub epoch_shift_s: u64,
+    /// a node that changes its address keeps receiving on the old ones (multi-homed host)
+    #[serde(default)]
+    pub keep_old_addrs: bool,
     #[serde(default)]
     pub client_tp: Vec<Value>,
     #[serde(default)]
@@ -505,6 +508,7 @@ pub struct Node {
     pub cid_len: usize,
     pub waiting: Vec<Incoming>,
     pub resp_tx: TxCtx,
+    pub old_addrs: Vec<SocketAddr>,
 }
 
 pub struct World {
@@ -695,6 +699,7 @@ impl World {
             is_server: true,
             cid_len: cfg.server_cid_len,
             waiting: Vec::new(),
+            old_addrs: Vec::new(),
             resp_tx: TxCtx {
                 dst_cid_len: cfg.client_cid_len,
                 next_pn: [0; 3],
@@ -711,6 +716,7 @@ impl World {
                 is_server: false,
                 cid_len: cfg.client_cid_len,
                 waiting: Vec::new(),
+                old_addrs: Vec::new(),
                 resp_tx: TxCtx {
                     dst_cid_len: cfg.server_cid_len,
                     next_pn: [0; 3],
@@ -1111,7 +1117,10 @@ impl World {
     }
 
     fn node_of_addr(&self, a: SocketAddr) -> Option<usize> {
-        self.nodes.iter().position(|n| n.addr == a)
+        self.nodes.iter().position(|n| n.addr == a).or_else(|| {
+            // a multi-homed node still receives on the addresses it used before
+            if self.cfg.keep_old_addrs { self.nodes.iter().position(|n| n.old_addrs.contains(&a)) } else { None }
+        })
     }
 
     /// Poll one connection for transmits until it has nothing more to send right now.
